@@ -67,17 +67,21 @@ Definition parse_nat (s : string) : option N :=
 (* optional '-' followed by digits *)
 Definition parse_int (s : string) : option Z :=
   match s with
-  | String "-" r => option_map (fun n => Z.opp (Z.of_N n)) (parse_nat r)
-  | _ => option_map Z.of_N (parse_nat s)
+  | String c r => if Ascii.eqb c "-" then option_map (fun n => Z.opp (Z.of_N n)) (parse_nat r)
+                  else option_map Z.of_N (parse_nat s)
+  | EmptyString => None
   end.
 
+(* `- <file>:<decimal>`, the file name being everything between "- " and the LAST ':' *)
 Definition parse_entry (l : string) : option (string * Z) :=
   match l with
-  | String "-" (String " " r) =>
-      match split_last_colon r with
-      | Some (f, d) => option_map (fun z => (f, z)) (parse_int d)
-      | None => None
-      end
+  | String c1 (String c2 r) =>
+      if (Ascii.eqb c1 "-" && Ascii.eqb c2 " ")%bool then
+        match split_last_colon r with
+        | Some (f, d) => option_map (fun z => (f, z)) (parse_int d)
+        | None => None
+        end
+      else None
   | _ => None
   end.
 
